@@ -276,3 +276,56 @@ def summary_expr(fn_node: ast.AST) -> Optional[ast.expr]:
         if not isinstance(st, (ast.Assign, ast.AnnAssign)):
             return None
     return inline_locals(fn_node, rets[0].value, depth=6)
+
+
+def paths(body: Sequence[ast.stmt], limit: int = 4000) -> List[Tuple[List[ast.stmt], str]]:
+    """Enumerate the structured control-flow paths of a statement list: (simple statements in order, ending) with ending in
+    {'return', 'raise', 'fall', 'break', 'continue'}. Loops are taken 0 or 1 times, try bodies either complete or jump to a handler
+    from their start (a sound over-approximation for 'may reach' questions on small functions)."""
+    def seq(stmts: Sequence[ast.stmt]) -> List[Tuple[List[ast.stmt], str]]:
+        acc: List[Tuple[List[ast.stmt], str]] = [([], "fall")]
+        for st in stmts:
+            new: List[Tuple[List[ast.stmt], str]] = []
+            for pre, end in acc:
+                if end != "fall":
+                    new.append((pre, end))
+                    continue
+                for mid, e2 in one(st):
+                    new.append((pre + mid, e2))
+                    if len(new) > limit:
+                        raise OverflowError("too many paths")
+            acc = new
+        return acc
+
+    def one(st: ast.stmt) -> List[Tuple[List[ast.stmt], str]]:
+        if isinstance(st, ast.Return):
+            return [([st], "return")]
+        if isinstance(st, ast.Raise):
+            return [([st], "raise")]
+        if isinstance(st, ast.Break):
+            return [([st], "break")]
+        if isinstance(st, ast.Continue):
+            return [([st], "continue")]
+        if isinstance(st, ast.If):
+            return seq(st.body) + seq(st.orelse)
+        if isinstance(st, (ast.For, ast.While, ast.AsyncFor)):
+            out = [([], "fall")]
+            for p, e in seq(st.body):
+                out.append((p, "fall" if e in ("fall", "break", "continue") else e))
+            return [(p + q, e2) if e == "fall" else (p, e) for p, e in out for q, e2 in (seq(st.orelse) if e == "fall" and st.orelse else [([], e)])]
+        if isinstance(st, (ast.With, ast.AsyncWith)):
+            return seq(st.body)
+        if isinstance(st, ast.Try):
+            out = []
+            for p, e in seq(st.body):
+                if e == "fall" and st.orelse:
+                    out += [(p + q, e2) for q, e2 in seq(st.orelse)]
+                else:
+                    out.append((p, e))
+            for h in st.handlers:
+                out += seq(h.body)
+            if st.finalbody:
+                out = [(p + q, e2 if e == "fall" else e) for p, e in out for q, e2 in seq(st.finalbody)]
+            return out
+        return [([st], "fall")]
+    return seq(list(body))
